@@ -624,7 +624,7 @@ impl Obs for C08 {
         // start-of-turn: hashes like the same position parsed from text
         // (the parser compiles a regex per call, so this is by far the most expensive clause: evaluated at
         // the first three turn starts - which include the end of a setup - and at every fourth one after)
-        if mo.step == 0 && (mo.turns_completed < 3 || mo.turns_completed % 4 == 0) {
+        if mo.step == 0 && !v.in_tree && (mo.turns_completed < 3 || mo.turns_completed % 4 == 0) {
             let text = mo.board.diagram(mo.move_number, mo.gold_to_move);
             if let Ok(Ok(p)) = guard(|| text.parse::<GameState>()) {
                 let ph = guard(|| p.transposition_hash()).map_err(|p| Fail::new("C08:panic", p))?;
